@@ -156,6 +156,9 @@ Expected ==
     [] f.kind = "burst" -> BurstOut(p, ins)
     [] f.kind = "totext" -> ToTextFn(p, ins)
     [] f.kind = "fftframes" -> FftFrames(p, ins)
+    [] f.kind = "affinemod" -> AffineMod(p, ins)
+    [] f.kind = "negpair" -> NegPair(p, ins)
+    [] f.kind = "debugtext" -> << Flatten(DebugText(p, ins)) >>
     [] f.kind = "fir" -> FirFn(p, ins)
     [] f.kind = "firc" -> FirFnC(p, ins)
     [] f.kind = "fftfilt" -> FftFiltFn(p, ins)
